@@ -231,7 +231,7 @@ def _cell_of(geom, ax, x, m):
     if i < 0 or i >= geom.n[ax]:
         return None
     exact = float(geom.pmin[ax] + Fr(2 * i + 1, 2) * geom.cell[ax]) / m
-    if abs(x - exact) > _tolpos(geom, ax, m):
+    if C.gt(abs(x - exact), _tolpos(geom, ax, m)):
         return None
     return i
 
@@ -723,7 +723,7 @@ def unit_lightness(ctx):
                 d = abs(h - eh)
                 d = min(d, 1 - d)
                 ctx.check()
-                if d > 1e-6:
+                if C.gt(d, 1e-6):
                     ctx.fail(site + "/hue-not-inplane-angle", f"cell ({i},{j}): hue {h:.6f} of the drawn colour, in-plane "
                              f"angle / 2pi = {eh:.6f}", instance=inst)
                     return
